@@ -3,8 +3,6 @@ package encoder
 import (
 	"bytes"
 	"fmt"
-	"strconv"
-	"unsafe"
 
 	"github.com/goccy/go-json/internal/errors"
 )
@@ -247,11 +245,56 @@ func compactNumber(dst, src []byte, cursor int64) ([]byte, int64, error) {
 		break
 	}
 	num := src[start:cursor]
-	if _, err := strconv.ParseFloat(*(*string)(unsafe.Pointer(&num)), 64); err != nil {
-		return nil, 0, err
+	if !validNumber(num) {
+		return nil, 0, errors.ErrSyntax(fmt.Sprintf("json: invalid number literal %q", num), start)
 	}
 	dst = append(dst, num...)
 	return dst, cursor, nil
+}
+
+// validNumber reports whether num is a number of the JSON grammar (RFC 8259, section 6).
+// strconv.ParseFloat accepts more than that: "01", "1.", "-.5", "1.e2".
+func validNumber(num []byte) bool {
+	i := 0
+	if i < len(num) && num[i] == '-' {
+		i++
+	}
+	switch {
+	case i == len(num):
+		return false
+	case num[i] == '0':
+		i++
+	case '1' <= num[i] && num[i] <= '9':
+		for i < len(num) && '0' <= num[i] && num[i] <= '9' {
+			i++
+		}
+	default:
+		return false
+	}
+	if i < len(num) && num[i] == '.' {
+		i++
+		digits := i
+		for i < len(num) && '0' <= num[i] && num[i] <= '9' {
+			i++
+		}
+		if i == digits {
+			return false
+		}
+	}
+	if i < len(num) && (num[i] == 'e' || num[i] == 'E') {
+		i++
+		if i < len(num) && (num[i] == '+' || num[i] == '-') {
+			i++
+		}
+		digits := i
+		for i < len(num) && '0' <= num[i] && num[i] <= '9' {
+			i++
+		}
+		if i == digits {
+			return false
+		}
+	}
+	return i == len(num)
 }
 
 func compactTrue(dst, src []byte, cursor int64) ([]byte, int64, error) {
